@@ -36,7 +36,11 @@ func (r CharRecipe) n() *big.Int {
 	allowed.Add(r.allowedSet)
 	required := set.NewSet()
 	for _, req := range r.requiredSets {
-		required.Add(req.s)
+		// A required set that exclusion has emptied is waived by
+		// requireFilter, so it must not make the count zero either
+		if req.size() > 0 {
+			required.Add(req.s)
+		}
 	}
 
 	return n(allowed, required, r.Length)
